@@ -648,10 +648,92 @@ def run(ctx):
     n = ctx.jobs * 3
     ctx.map(_task_pairs, [(ctx.quick, i, n) for i in range(n)])
     ctx.map(_task_deferred, [0])
+    ctx.map(_task_composed, [0])
     ctx.bounds = {'call_pool': len(pool), 'history_length': 2}
 
 
+def run_composed():
+    """the same claim end to end: a real client builds the call (all four
+    combinations of the no-reply and no-auto-start flags), the real bus
+    hands it on, a real exporting client dispatches it; what the exporter
+    writes back is counted on the wire"""
+    from mcx.checks import c11
+    from mcx import refcodec as R
+    viol = []
+    sc = dict(n=2, exporters={0: 'org.ex.A'}, calls=[])
+    s = c11.System(sc, 'explicit')
+    try:
+        caller = s.cprotos[1]
+        for method, body, fails in (('Echo', ['a'], False),
+                                    ('Fail', ['z'], True)):
+            for er in (True, False):
+                for auto in (True, False):
+                    del s.log[:]
+                    before = len(s.ct[0].log)
+                    got = []
+                    d = caller.callRemote(
+                        '/svc', method, interface='org.ex.Svc',
+                        destination='org.ex.A', signature='s', body=body,
+                        expectReply=er, autoStart=auto)
+                    d.addBoth(got.append)
+                    # the call as the caller put it on the wire
+                    sent = fakes.messages_of(s.ct[1].out[-1])[0]
+                    s.pump()
+                    wrote = b''.join(e[1] for e in s.ct[0].log[before:]
+                                     if e[0] == 'w')
+                    replies = [m for m in fakes.messages_of(wrote)
+                               if m['fields'].get('reply_serial') ==
+                               sent['serial']]
+                    tag = '%s/%s/%s' % (method, 'reply' if er else 'noreply',
+                                        'autostart' if auto else
+                                        'no-autostart')
+                    ran = [e for e in s.log if e[1] == method]
+                    if len(ran) != 1:
+                        viol.append(('composed/invocations/' + tag,
+                                     '%s(%r) expectReply=%s autoStart=%s ran '
+                                     '%d times' % (method, body, er, auto,
+                                                   len(ran))))
+                    if len(replies) != (1 if er else 0):
+                        viol.append((
+                            'composed/replies/' + tag,
+                            '%s(%r) called with expectReply=%s autoStart=%s '
+                            '(flags byte %d on the wire): the exporter wrote '
+                            '%d replies %r' % (method, body, er, auto,
+                                               sent['flags'], len(replies),
+                                               [_b(m) for m in replies])))
+                    elif replies:
+                        m = replies[0]
+                        if m['type'] != (3 if fails else 2) or \
+                                m['fields'].get('destination') != \
+                                caller.busName:
+                            viol.append(('composed/reply/' + tag,
+                                         'reply %r to %s' % (
+                                             _b(m), m['fields'].get(
+                                                 'destination'))))
+    except Exception as e:
+        viol.append(('composed/raises-%s' % type(e).__name__,
+                     'the composed run raised %r' % (e,)))
+    finally:
+        s.close()
+    return viol
+
+
+def _task_composed(_):
+    res = core.Result()
+    found = run_composed()
+    res.count('states', 8)
+    res.count('transitions', 8)
+    res.count('evaluations', 8)
+    res.count('nontrivial', 8)
+    for t, w in found:
+        res.violation('%s/%s' % (PROP, t), w, {'part': 'composed'}, size=1)
+    return res
+
+
 def replay(data):
+    if data['part'] == 'composed':
+        found = run_composed()
+        return [('%s/%s' % (PROP, t), w) for t, w in found]
     if data['part'] == 'pairs':
         found = run_history([tuple(c) for c in data['calls']],
                             tuple(data['order']))
